@@ -7,7 +7,8 @@
 From Coq Require Import String.
 From Statham.Model Require Import Str Json Elem PyNum Validate Equality Names Tables Parser SerJson.
 From Statham.Generated Require Gen_signatures.
-From Statham.Proofs Require Import Agree_tables ParserDefaultProof SerJsonProof NamesProof.
+From Statham.Model Require Import Spec6 Plain.
+From Statham.Proofs Require Import Agree_tables ParserDefaultProof SerJsonProof NamesProof JsonEqProof C01Plain C01Parse C03Meaning C06Meaning.
 Local Open Scope string_scope.
 Local Open Scope list_scope.
 
@@ -36,3 +37,17 @@ Proof. exact sig_element_agree. Qed.
 Theorem C06_suffix_not_stable_refuted :
   title_format (s_ "Item_1") = s_ "Item" /\ title_format (s_ "Item") = s_ "Item".
 Proof. split; vm_compute; reflexivity. Qed.
+
+(* the normal form keeps the meaning: for every schema of the class-free fragment with non-empty
+   property names, the element the parser returns lies in the fragment of C03_meaning, and the
+   document serialized from it is accepted by exactly the values the source schema accepts
+   (Spec6.v6 on both documents), for every value on which the element's own call does not crash.
+   No keyword value is lost, altered or invented in a way that changes what is accepted. *)
+Theorem C06_normal_form_keeps_meaning : forall cfg O S0 st e st',
+  comp_complete cfg -> plain cfg false S0 -> named S0 ->
+  parse_element cfg S0 st = POk (e, st') ->
+  dsl e /\
+  forall v, jwf v -> ncrash (build O e (Some v)) ->
+    v6 O WNever (ser_top true true [] e) v = v6 O WNever S0 v.
+Proof. exact normal_form_keeps_meaning. Qed.
+Print Assumptions C06_normal_form_keeps_meaning.
